@@ -4,7 +4,7 @@ META = {
     "title": "ppv-null emulated vectors equal scalar lane-wise arithmetic and never panic",
     "design_ref": "6/C19",
     "technique": "Coq proof: per-macro model of lib.rs with explicit checked-operator primitives and a build-profile parameter; scalar lemmas (wrapping add, rotate, shift-or rotate, mask/shift swap by a finite bit-position sweep) lifted lane-wise; differential correspondence impl = model = spec for every public method in debug and release builds",
-    "level_text": "Machine-checked theorems (Props/C19.v) about the model of every public method of u32x4, u64x4, u128x1, u128x2, u32x4x4: for all operands in the stated domain and both build profiles the model returns normally and equals the independent scalar lane-wise specification. Implementation = model (outcome ok/panic and every lane, also outside the domain) and implementation = spec (inside the domain) are checked on generated cases in a debug (overflow checks, debug assertions) and a release build.",
+    "level_text": "Machine-checked theorems (Props/C19.v) about the model of every public method of u32x4, u64x4, u128x1, u128x2, u32x4x4: for all operands in the stated domain and both build profiles the model returns normally and equals the independent scalar lane-wise specification. Implementation = model (outcome ok/panic and every lane, also outside the domain) and implementation = spec (inside the domain) are checked on generated cases in a debug (overflow checks, debug assertions) and a release build. Any combination of overflow-checks / debug-assertions: C19_two_switch_reduction / _diagonal / _transfer, C19_model_eq_spec_any_switches, C19_total_any_switches (no method consults both switches, so the four combinations reduce method by method to the two modelled profiles; the outside-domain behaviours are pinned per switch: C19_outside_*_by_overflow_checks / _by_debug_assertions).",
     "level_note": "Trusted: Coq kernel+VM; the scalar spec Spec/NullLanes.v (anchored by Examples); hand-written model tied on generated cases only; harness. One switch profile := Debug | Release drives both overflow checks and debug assertions (the two cargo profiles); release + overflow-checks and dev without them are not separate cases of the model. No axioms.",
     "rule": "cases = (type, method, self lanes, second operand / slice, scalar argument) for all 71 (type, method) pairs: fixed patterns (zero, all-ones, byte-index, alternating), walking-one over every bit of the vector (exhaustive basis), walking-zero, carry chains (MAX+1 per lane, single carrying lane, longest chain ending at each bit), seeded random; rotation amounts 0..bits and beyond u32; every lane index plus out-of-range ones; slices of wrong length. distinct = distinct (type, method, a, b, i); non-trivial = some operand word or the scalar argument non-zero. Outcome (ok|panic) and all lanes compared with the model on every case and with the spec on every in-domain case inside coqc.",
     "assumptions": ["little-endian host is irrelevant here (no byte views in ppv-null)",
